@@ -278,9 +278,10 @@ def drive(sc):
         V0 = _project_vcf(v0, nsmp, site_index, intern)
         events.append({"ev": "World", "v0": V0, "reads": absreads, "kind": sc["kind"]})
         if not reads:
-            # a BAM without alignments is refused by whatshap; such a bundle has nothing to tag
-            reads.append({"name": "filler", "flag": 4, "ref": -1, "pos": -1, "mapq": 0, "cigar": None, "seq": "ACGTACGTAC",
-                          "tags": [("XI", 0)], "rg": "g1"})
+            # whatshap refuses a BAM without mapped alignments; a bundle of read-less worlds gets one read that covers no site
+            rec, _ = c10._build_alignment(sc, rng, chroms[0], {"kind": "prim", "lo": 1, "hi": 0, "al": [], "third": [], "rev": False}, 0)
+            reads.append({"name": "filler", "flag": 0, "ref": 0, "pos": rec["pos"], "mapq": 60, "cigar": rec["cigar"], "seq": rec["seq"],
+                          "qual": rec["qual"], "tags": [("XI", 0)], "rg": "g1"})
         bam = W.write_bam(os.path.join(d, "in.bam"), contigs, reads, read_groups=[{"ID": f"g{i + 1}", "SM": s} for i, s in enumerate(samples)])
         # 1. haplotag
         tagged = os.path.join(d, "tagged.bam")
@@ -358,17 +359,29 @@ def nontrivial(sc, events):
 
 
 def selftest_corrupt(events):
-    """exchange the alleles of one call of W that haplotagphase phased"""
-    u = None
+    """exchange the alleles of one call that haplotagphase phased and V0 had phased; in another history change its PS"""
+    v0 = u = None
+    n = 0
     for e in events:
+        if e.get("ev") == "World":
+            v0, u = e["v0"], None
         if e.get("ev") == "Unphase" and not e["exc"]:
             u = e["u"]
-        if e.get("ev") == "HaplotagPhase" and not e["exc"] and u:
+        if e.get("ev") == "HaplotagPhase" and not e["exc"] and u and v0:
             for s, row in enumerate(e["w"]):
                 for j, c in enumerate(row):
-                    if c["ph"] and not u[s][j]["ph"] and len(c["al"]) == 2:
-                        c["al"] = c["al"][::-1]
-                        return events
+                    if n < 2 and c["ph"] and not u[s][j]["ph"] and v0[s][j]["ph"] and len(c["al"]) == 2:
+                        if n == 0:
+                            c["al"] = c["al"][::-1]
+                        else:
+                            c["ps"] += 1
+                        n += 1
+                        break
+                else:
+                    continue
+                break
+            if n >= 2:
+                break
     return events
 
 
